@@ -26,7 +26,8 @@ as `null` (`**T` pointing at a nil `*T`, `*any` pointing at a nil interface; wit
 also pointers/interfaces holding nil slices/maps).  Such a value marshals as `null`, and `null`
 unmarshals to a nil pointer / nil interface: the real code does the same (harness/c04_l3.go exercises
 exactly these shapes, bucket `unsafe-collapse`), so there the value is NOT restored.  `unsafe_collapses`
-shows the hypothesis is necessary, not an artefact.
+shows the hypothesis is necessary, not an artefact.  It is needed ONLY for the value relation:
+acceptance and the re-marshal fixpoint (`remarshal_fixpoint`) hold for every well-typed value.
 
 The value relation `veq` (Model/Marshal.lean) is equality except: a nil and an empty slice are
 identified, a nil and an empty map are identified, and maps are compared as finite maps (the order of
@@ -48,31 +49,29 @@ theorem mar_dupFree (o : MOpts) (T : GoType) (hwf : T.wf = true) (v : GoVal) (j 
     (ht : hasType T v = true) (h : mar o T v = .ok j) : j.dupFree = true :=
   mar_dupFree_all o T hwf v j ht h
 
-/-- **Round trip.**  Unmarshal (into a zero value) accepts what Marshal wrote; the decoded value is
-again a value of the type, is related to the original by `veq`, and — `remarshal_fixpoint` —
-marshals to the same tree. -/
+/-- **Unmarshal accepts what Marshal wrote, and re-marshaling the decoded value reproduces the same
+tree** — for EVERY well-typed value (no `safe` hypothesis); the decoded value is again well-typed. -/
+theorem remarshal_fixpoint (o : MOpts) (uo : UOpts) (T : GoType) (hwf : T.wf = true) (v : GoVal) (j : JTree)
+    (ht : hasType T v = true) (h : mar o T v = .ok j) :
+    ∃ v', unm uo T j T.zero = .ok v' ∧ mar o T v' = .ok j ∧ hasType T v' = true := by
+  obtain ⟨v', h1, _, h3, h4⟩ := rt_all o uo T hwf v j ht h
+  exact ⟨v', h1, h3, h4⟩
+
+/-- **Round trip.**  If moreover no pointer/interface in `v` holds a null-printing value (`safe`), the
+decoded value is related to the original by `veq` (equal up to nil ≈ empty containers). -/
 theorem roundtrip (o : MOpts) (uo : UOpts) (T : GoType) (hwf : T.wf = true) (v : GoVal) (j : JTree)
     (ht : hasType T v = true) (hs : safe o v = true) (h : mar o T v = .ok j) :
-    ∃ v', unm uo T j T.zero = .ok v' ∧ veq v v' ∧ hasType T v' = true := by
-  obtain ⟨v', h1, h2, _, h4⟩ := rt_all o uo T hwf v j ht hs h
-  exact ⟨v', h1, h2, h4⟩
-
-/-- **Re-marshal fixpoint**: marshaling the decoded value reproduces the same tree. -/
-theorem remarshal_fixpoint (o : MOpts) (uo : UOpts) (T : GoType) (hwf : T.wf = true) (v v' : GoVal) (j : JTree)
-    (ht : hasType T v = true) (hs : safe o v = true) (h : mar o T v = .ok j)
-    (hu : unm uo T j T.zero = .ok v') : mar o T v' = .ok j := by
-  obtain ⟨w, h1, _, h3, _⟩ := rt_all o uo T hwf v j ht hs h
-  rw [h1] at hu
-  cases hu
-  exact h3
+    ∃ v', unm uo T j T.zero = .ok v' ∧ veq v v' ∧ mar o T v' = .ok j ∧ hasType T v' = true := by
+  obtain ⟨v', h1, h2, h3, h4⟩ := rt_all o uo T hwf v j ht h
+  exact ⟨v', h1, h2 hs, h3, h4⟩
 
 /-- The same without mentioning the intermediate tree: total round trip of a well-typed safe value. -/
 theorem roundtrip_total (o : MOpts) (uo : UOpts) (T : GoType) (hwf : T.wf = true) (v : GoVal)
     (ht : hasType T v = true) (hs : safe o v = true) :
     ∃ j v', mar o T v = .ok j ∧ unm uo T j T.zero = .ok v' ∧ veq v v' ∧ mar o T v' = .ok j := by
   obtain ⟨j, hj⟩ := mar_total o T v ht
-  obtain ⟨v', h1, h2, h3, _⟩ := rt_all o uo T hwf v j ht hs hj
-  exact ⟨j, v', hj, h1, h2, h3⟩
+  obtain ⟨v', h1, h2, h3, _⟩ := rt_all o uo T hwf v j ht hj
+  exact ⟨j, v', hj, h1, h2 hs, h3⟩
 
 /-- A value marshals as `null` only if it is one of the null-printing values. -/
 theorem null_only_if_printsNull (o : MOpts) (T : GoType) (v : GoVal) (h : mar o T v = .ok .null) :
